@@ -214,6 +214,15 @@ def build_grader(cfg):
     if cfg.get('user_fact'):
         kw['user_functions'] = {'fact': ref_fact}
         kw['suppress_warnings'] = True
+    if 'user_functions' in cfg:
+        import numpy as np
+        from mitxgraders import RandomFunction, SpecificFunctions
+        make = {'square': lambda: (lambda x: x * x), 'random': lambda: RandomFunction(),
+                'specific': lambda: SpecificFunctions([np.sin, np.cos])}
+        kw.setdefault('user_functions', {}).update({name: make[k]() for name, k in cfg['user_functions'].items()})
+    for k in ('user_constants', 'numbered_vars', 'metric_suffixes'):
+        if k in cfg:
+            kw[k] = cfg[k]
     return SumGrader(**kw)
 
 
@@ -1056,6 +1065,87 @@ def student_error_cases(rng, count):
     return out
 
 
+NAME_KINDS = [
+    # (kind, name, has a meaning in the problem)
+    ('declared variable', 'x', True), ('instructor variable', 'c', True), ('numbered-variable instance', 'a_{2}', True),
+    ('default constant', 'pi', True), ('default constant', 'e', True), ('default constant', 'i', True),
+    ('default constant', 'j', True), ('default constant', 'infty', True), ('user constant', 'tau', True),
+    ('default function', 'sin', True), ('default function', 'exp', True), ('default function', 'fact', True),
+    ('deterministic user function', 'h', True), ('RandomFunction user function', 'f', True),
+    ('RandomFunction user function', 'g', True), ('SpecificFunctions user function', 'sf', True),
+    # contrast: no meaning of their own (a metric suffix only means something directly after a number; the head of a
+    # numbered variable is not itself a variable)
+    ('fresh name', 'q', False), ('fresh name', 'zz', False), ('fresh name', "t'", False),
+    ('metric suffix letter', 'k', False), ('metric suffix letter', 'M', False), ('metric suffix letter', 'u', False),
+    ('numbered-variable head', 'a', False), ('fresh name', 'a_2', False),
+]
+
+
+def name_kind_cases(rng, reps):
+    """the student's summation variable drawn from every kind of name of the problem; the variable is always entered"""
+    out = []
+    for rep_ in range(reps):
+        for kind, name, meaning in NAME_KINDS:
+            lo, hi = rng.randint(-4, 2), rng.randint(3, 7)
+            cfg = {'answers': ['%d' % lo, '%d' % hi, 'n^2+x+a_{2}*0+c*0', 'n'], 'variables': ['x', 'c'], 'instructor_vars': ['c'],
+                   'numbered_vars': ['a'], 'user_constants': {'tau': 6.28}, 'metric_suffixes': True,
+                   'user_functions': {'h': 'square', 'f': 'random', 'g': 'random', 'sf': 'specific'},
+                   'samples': rng.choice([1, 2]), 'tolerance': 1e-9}
+            function_like = 'function' in kind
+            summand = ('f(%s)*g(2) + x' % name) if kind.startswith('RandomFunction') and rng.random() < 0.5 else \
+                      ('2+x' if function_like else '%s^2+x' % name)
+            fields = ['%d' % lo, '%d' % hi, summand, name]
+            # the summand and the variable are entered, the limits maybe
+            entered = [rng.random() < 0.5, rng.random() < 0.5, True, True]
+            order = [f for f in range(4) if entered[f]]
+            rng.shuffle(order)
+            pos = [None] * 4
+            for p_, f in enumerate(order):
+                pos[f] = p_ + 1
+            cfg['positions'] = pos
+            spec = {'key': 'name:%d:%s:%s' % (rep_, kind, name), 'cfg': cfg, 'inputs': inputs_from(pos, fields)}
+            if meaning:
+                spec.update(kind='student-error', meta={'what': 'dummy-has-meaning', 'field': 3, 'bad': name, 'name_kind': kind,
+                                                        'fields': fields, 'lo': lo, 'hi': hi, 'eo': 0})
+            else:
+                spec.update(kind='dummy-contrast', meta={'name_kind': kind, 'name': name})
+            out.append(spec)
+    return out
+
+
+def mixed_limit_cases(rng):
+    """one limit infinite (either box, either sign), the other non-integer, complex or the same infinity"""
+    out = []
+    bads = [('noninteger-limit', '1/2'), ('noninteger-limit', '2.5'), ('noninteger-limit', '7/2'), ('noninteger-limit', '-0.5'),
+            ('noninteger-limit', 'x/7+0.01'), ('noninteger-limit', '3-x/5'), ('complex-limit', '1+i'), ('complex-limit', '2*j'),
+            ('same-infinities', None)]
+    for box in (0, 1):
+        for sign in (1, -1):
+            for what, bad in bads:
+                inf = 'infty' if sign > 0 else '-infty'
+                if sign > 0:
+                    answers = ['0', 'infty', '(1/2)^n+x*0', 'n']
+                else:
+                    answers = ['-infty', '0', '(1/2)^(-n)+x*0', 'n']
+                var = rng.choice(['n', 'k'])
+                fields = [None, None, answers[2].replace('n', var), var]
+                fields[box] = inf
+                fields[1 - box] = inf if bad is None else bad
+                pos = pick_positions(rng, 0.5)
+                if pos is not None:
+                    for f in (0, 1) + ((2, 3) if var != 'n' else ()):
+                        if pos[f] is None:
+                            pos[f] = max([p_ for p_ in pos if p_ is not None] + [0]) + 1
+                cfg = {'answers': answers, 'variables': ['x'], 'infty_val': 30, 'tolerance': '1%', 'samples': rng.choice([1, 2])}
+                if pos is not None:
+                    cfg['positions'] = pos
+                out.append({'key': 'mixlim:%d:%d:%s:%r' % (box, sign, what, bad), 'kind': 'student-error', 'cfg': cfg,
+                            'inputs': inputs_from(pos, fields),
+                            'meta': {'what': what, 'field': 1 - box, 'bad': bad, 'fields': fields, 'lo': 0, 'hi': 1, 'eo': 0,
+                                     'mixed_with_infinity': inf}})
+    return out
+
+
 def author_error_cases(rng, count):
     """failures in the author's own sum, with a valid student submission"""
     probes = [('noninteger-limit', 0, '1/2'), ('noninteger-limit', 1, '2.5'), ('complex-limit', 0, '1+i'), ('complex-limit', 1, 'i'),
@@ -1065,13 +1155,19 @@ def author_error_cases(rng, count):
               ('undefined-variable', 2, 'n+zz'), ('division-by-zero', 2, '1/(n-n)'), ('shape', 2, '[n,1]+[1,2,3]'),
               ('blank-field', 0, ''), ('blank-field', 1, ''), ('blank-field', 2, ''), ('blank-field', 3, ''),
               ('whitespace-limit', 0, ' '), ('whitespace-limit', 1, '  '), ('array-limit', 0, '[1,2]'),
-              ('unparsable', 0, '1+'), ('unparsable', 2, 'n+*2'), ('unparsable', 1, '(3')]
+              ('unparsable', 0, '1+'), ('unparsable', 2, 'n+*2'), ('unparsable', 1, '(3'),
+              ('mixed-limit', (0, 'infty'), '1/2'), ('mixed-limit', (1, 'infty'), '7/2'), ('mixed-limit', (0, '-infty'), '2.5'),
+              ('mixed-limit', (1, '-infty'), 'x/7+0.01')]
     out = []
     for j in range(count):
         what, field, bad = probes[j % len(probes)]
         answers = ['1', '4', 'n^2+x', 'n']
         if what == 'same-infinities':
             answers[0] = answers[1] = bad
+        elif what == 'mixed-limit':
+            box, inf = field
+            answers[box], answers[1 - box] = inf, bad
+            answers[2] = '(1/2)^n' if inf == 'infty' else '(1/2)^(-n)'
         elif what.startswith('dummy'):
             answers[3] = bad
             answers[2] = '2+x'
@@ -1088,6 +1184,8 @@ def author_error_cases(rng, count):
             var = 'n'
             fields = ['1', '4', 'n^2+x', 'n']
         cfg = {'answers': answers, 'variables': ['x'], 'samples': rng.choice([1, 2])}
+        if what == 'mixed-limit':
+            cfg['infty_val'] = 30
         if pos is not None:
             cfg['positions'] = pos
         entered = [True] * 4 if pos is None else [p is not None for p in pos]
@@ -1274,7 +1372,15 @@ def oracle(run):
 
     if kind == 'student-error':
         if not (st == 'exc' and is_student_facing(r)):
-            fail('%s (%r) did not raise a student-facing error: %s' % (meta['what'], meta['bad'], repr(r)[:200]))
+            fail('%s (%r%s) did not raise a student-facing error: %s' %
+                 (meta['what'], meta['bad'], ', a ' + meta['name_kind'] if meta.get('name_kind') else
+                  (', other limit ' + meta['mixed_with_infinity'] if meta.get('mixed_with_infinity') else ''), repr(r)[:200]))
+        return fails
+
+    if kind == 'dummy-contrast':
+        if not (st == 'ret' and r.get('ok') is True):
+            fail('%s %r has no meaning of its own in the problem but was not accepted as the summation variable: %s'
+                 % (meta['name_kind'], meta['name'], repr(r)[:200]))
         return fails
 
     if kind == 'author-error':
@@ -1342,6 +1448,21 @@ def corpus():
     add('variable-as-dummy', 'student-error',
         {'answers': ['0', '1', 't', 't'], 'variables': ['x']},
         ['0', '1', 'x', 'x'], {'what': 'dummy-has-meaning', 'field': 3, 'bad': 'x', 'lo': 0, 'hi': 1, 'eo': 0})
+    # the name of a randomly sampled user function as the summation variable
+    add('random-function-as-dummy', 'student-error',
+        {'answers': ['1', '5', 'f(n)*g(n) + c*x', 'n'], 'variables': ['x', 'c'], 'instructor_vars': ['c'],
+         'user_functions': {'f': 'random', 'g': 'random'}, 'samples': 2},
+        ['1', '5', 'f(f)*g(f) + x', 'f'], {'what': 'dummy-has-meaning', 'field': 3, 'bad': 'f', 'name_kind': 'RandomFunction user function',
+                                           'lo': 1, 'hi': 5, 'eo': 0})
+    # a non-integer limit next to an infinite one
+    geo = {'answers': ['0', 'infty', 'x^n', 'n'], 'variables': ['x'], 'sample_from': {'x': ('real', 0.1, 0.5)}, 'infty_val': 40,
+           'tolerance': '1%', 'samples': 2}
+    add('noninteger-lower-with-infinite-upper', 'student-error', dict(geo), ['1/2', 'infty', 'x^n', 'n'],
+        {'what': 'noninteger-limit', 'field': 0, 'bad': '1/2', 'mixed_with_infinity': 'infty', 'lo': 0, 'hi': 1, 'eo': 0})
+    add('noninteger-upper-with-infinite-lower', 'student-error', dict(geo), ['infty', '7/2', 'x^n', 'n'],
+        {'what': 'noninteger-limit', 'field': 1, 'bad': '7/2', 'mixed_with_infinity': 'infty', 'lo': 0, 'hi': 1, 'eo': 0})
+    add('author-noninteger-lower-with-infinite-upper', 'author-error', dict(geo, answers=['1/2', 'infty', 'x^n', 'n']),
+        ['0', 'infty', 'x^n', 'n'], {'what': 'mixed-limit', 'field': (0, 'infty'), 'bad': '1/2', 'entered': [True] * 4})
     # values
     n = ('n',)
     for j, (a, s, eo, ok) in enumerate([
@@ -1377,7 +1498,9 @@ def generate(ctx):
         fin = rng.randint(-3, 5) if direction >= 0 else rng.randint(-5, 3)
         specs.append(value_case(rng, 'inf:%d' % j, 0, 0, rng.choice([0, 0, 1, 2]), tier, infinite=(direction, fin)))
     specs += student_error_cases(rng, 160 if tier == 'quick' else 600)
-    specs += author_error_cases(rng, 104 if tier == 'quick' else 416)
+    specs += name_kind_cases(rng, 2 if tier == 'quick' else 6)
+    specs += mixed_limit_cases(rng)
+    specs += author_error_cases(rng, 120 if tier == 'quick' else 480)
     specs += position_cases(rng, tier)
     return specs
 
@@ -1437,7 +1560,7 @@ def run(ctx):
     changed = ctx.get('fingerprints_changed', [])
     full = ctx['tier'] == 'thorough' or bool(ctx.get('broken')) or (0 < len(changed) < len(MIRRORED))
     res.notes.append('Coq replay volume: %s' % ('full' if full else 'all non-grid cases + 1/3 of the grid'))
-    dist = {'value': 0, 'student-error': 0, 'author-error': 0, 'positions': 0, 'unencodable': 0, 'oracle_boundary': 0,
+    dist = {'value': 0, 'student-error': 0, 'author-error': 0, 'positions': 0, 'dummy-contrast': 0, 'unencodable': 0, 'oracle_boundary': 0,
             'ref_errors': 0, 'verdict_true': 0, 'verdict_false': 0, 'raised': 0, 'terms_evaluated': 0}
     labels, errkinds = {}, {}
     for spec, o in zip(specs, outs):
